@@ -723,6 +723,10 @@ func GenericHpairFunction(env *Zlisp, name string, args []Sexp) (Sexp, error) {
 func (h *SexpHash) FillHashFromShadow(env *Zlisp, src interface{}) error {
 	//Q("in FillHashFromShadow, with src = %#v", src)
 	h.GoShadowStruct = src
+	// the reflect.Value must be attached along with the struct: with
+	// ShadowSet true and no Value, a method call on the record handed
+	// back by Go used a zero Value as its receiver.
+	h.GoShadowStructVa = reflect.ValueOf(src)
 	h.ShadowSet = true
 	vaSrc := reflect.ValueOf(src).Elem()
 
